@@ -35,11 +35,11 @@ import (
 type plyTables struct {
 	ok       bool
 	casesOK  bool
-	accepted map[types.Object]bool            // Validate
-	parseTy  map[types.Object]*types.Named    // label -> PLYValue type built by Parse
-	decTy    map[types.Object]*types.Named    // label -> type built by DecodeBinary
-	size     map[types.Object]int64           // Size
-	labels   map[string][]types.Object        // per method
+	accepted map[types.Object]bool         // Validate
+	parseTy  map[types.Object]*types.Named // label -> PLYValue type built by Parse
+	decTy    map[types.Object]*types.Named // label -> type built by DecodeBinary
+	size     map[types.Object]int64        // Size
+	labels   map[string][]types.Object     // per method
 }
 
 func findMethodDecl(p *packages.Package, recv, name string) *ast.FuncDecl {
